@@ -28,6 +28,16 @@ func (c *Check) registryLocked(rule string) {
 			continue
 		}
 		held := p.lockHeld(fn, "mu")
+		if par := p.enteredOnlyThroughHelper(fn); par != nil {
+			// a closure handed to a helper that runs it (locked(func(){…})):
+			// its accesses are judged where the helper calls it
+			held = p.lockHeld(par, "mu")
+			for _, a := range acc {
+				n++
+				c.require(held[a.Instr], rule, p.Name(fn), a.String(), p.InstrPos(a.Instr), "Server.mu is held on every path to this access (the closure runs inside the helper it is handed to)")
+			}
+			continue
+		}
 		for _, a := range acc {
 			n++
 			c.require(held[a.Instr], rule, p.Name(fn), a.String(), p.InstrPos(a.Instr), "Server.mu is held on every path to this access")
